@@ -8,21 +8,30 @@ PROP = dict(
                'psX509ParseCert + matrixValidateCertsExt (and, for a sample, matrixSslNewClientSession + a real TLS 1.2/1.3 handshake). '
                'A reference matcher written from the property text decides which accepts are allowed (one-directional), every generated '
                'permutation of the subjectAltName list must give the same verdict, and a byte-identical dNSName must be accepted. '
+               'About half of the leaves also carry names that do not name the subject (issuerAltName with 1-4 GeneralNames of the SAN grammar, '
+               'CRL distribution point names, authorityInfoAccess URIs, authorityKeyIdentifier issuer directoryName, subject OU / emailAddress); '
+               'the reference matcher ignores them and an accept that disappears when they are removed is a failure. '
                'Finds matching errors that depend on string shape, list position, name type or flags with high probability; proves nothing '
                'about names outside the grammar.',
     level_note='Trusted: OpenSSL 3.0 libcrypto encodes the names it is given byte-for-byte (ASN1_STRING_set); the reference matcher '
                '(ref_accept in props/C05/names.cc, ~40 lines); clock pinned to 2026-09-21 by ld --wrap=time. Tolerated documented behaviour: one '
                'trailing NUL stripped from SAN strings, cross-kind matches under NAME_TYPE_ANY, wildcard in CN, empty left-most label; expected names '
-               'that themselves contain non-printable bytes are not judged by the one-directional oracle.',
-    technique='property-based testing: reference-model (one-directional) + metamorphic (SAN permutation invariance) + completeness smoke, ASan/UBSan',
+               'that themselves contain non-printable bytes are not judged by the one-directional oracle. A non-subject name that makes the library '
+               'stricter (e.g. suppresses the CN fallback) is counted (extras-turn-accept-into-reject), not flagged: the model asserts completeness '
+               'only for a byte-identical dNSName.',
+    technique='property-based testing: reference-model (one-directional) + metamorphic (SAN permutation invariance; non-subject names never turn a reject '
+              'into an accept) + completeness smoke, ASan/UBSan',
     rule='case = (expected name E from {host 1-5 labels over a tiny alphabet, e-mail, IPv4 with octets biased to 0,1,9,10,99,100,199,255 and 14/15-character '
          'forms, weird: trailing/leading dot, literal wildcard, control/8-bit}, nameType in all 6 values, mFlags in {0,ALWAYS_CHECK_CN,EMAIL_CI,both}, '
          'subject CN absent or derived (UTF8/Printable/IA5/T61/BMP/BIT STRING), SAN list of 0-6 entries of dNSName/rfc822Name/iPAddress(4,16,odd)/URI/otherName/'
          'directoryName each derived from E by one of 28 operators (same, case, prefix, suffix, label shift, 7 wildcard forms, trailing dot, embedded/trailing NUL, '
          'control, 8-bit, edit 1/2, swap, local-part change ...) or random from the same grammar; all permutations for lists <= 3 (<= 5 in the allperm target), '
-         'rotations+reverse+random otherwise); non-trivial = some certificate name is a near miss of E (case variant, prefix, suffix, label shift, '
+         'rotations+reverse+random otherwise); plus, in ~1/2 of the cases (drawn last on the tape), non-subject names: issuerAltName of 1-4 GeneralNames before or after the '
+         'SAN extension (5/8 with an entry that would match E as a SAN: equal/case variant/one-label wildcard/same IP; the others derived from E or random by the same '
+         '28 operators), CRL distribution point fullName (URL containing E, or dNSName/rfc822Name/iPAddress as before), AIA ocsp/caIssuers URL containing E, '
+         'AKI authorityCertIssuer CN=E/wildcard of E, subject OU / emailAddress = E; non-trivial = some subject name (CN/SAN) is a near miss of E, or some issuerAltName entry equals E or is a near miss of E (near miss = case variant, prefix, suffix, label shift, '
          'edit distance <= 2, wildcard form, NUL/non-printable variant) or the SAN list has >= 2 entries; distinct by (SAN kind sequence, nameType, mFlags, '
-         'set of (kind, relation class))',
+         'set of (kind, relation class), issuerAltName kind sequence and relation set, which other non-subject fields are present)',
     assumptions=['OpenSSL libcrypto writes name bytes verbatim', 'test CA /verif/pki/ca_ec is valid at the pinned time', 'expected names are C strings (no embedded NUL)'],
     targets=[
         dict(name='c05_names', src=_SRC, libs=['-lcrypto'], wraps=WRAPS, env=_ENV,
